@@ -93,6 +93,14 @@ type Finding struct {
 	Count   int    `json:"count"`
 }
 
+// group is the case id without its "@<value class>" suffix.
+func group(caseID string) string {
+	if i := strings.Index(caseID, "@"); i >= 0 {
+		return caseID[:i]
+	}
+	return caseID
+}
+
 func (f *Finding) sig(prop string) string {
 	s := prop + "|" + f.Case + "|" + f.Symptom
 	if f.Detail != "" {
@@ -187,6 +195,9 @@ var (
 	reNum    = regexp.MustCompile(`\b\d+\b`)
 	reHex    = regexp.MustCompile(`0x[0-9a-fA-F]+`)
 	reSpace  = regexp.MustCompile(`\s+`)
+	rePkg    = regexp.MustCompile(`\b[a-z]\d\d[a-z]?f\d{3}[a-z]*\b`)
+	reSel    = regexp.MustCompile(`\b(x|req|m|msg)\.[A-Z]\w*`)
+	reFieldName = regexp.MustCompile(`\bfield [\w.]+`)
 )
 
 // Normalise erases positions, literals and numbers from a tool message.
@@ -197,7 +208,11 @@ func Normalise(s string) string {
 	if i := strings.IndexByte(s, '\n'); i >= 0 {
 		s = s[:i]
 	}
+	s = strings.ReplaceAll(s, "\u00a0", " ")
 	s = rePos.ReplaceAllString(s, "")
+	s = rePkg.ReplaceAllString(s, "PKG")
+	s = reSel.ReplaceAllString(s, "x.F")
+	s = reFieldName.ReplaceAllString(s, "field F")
 	s = reQuoted.ReplaceAllString(s, "Q")
 	s = reHex.ReplaceAllString(s, "N")
 	s = reNum.ReplaceAllString(s, "N")
@@ -263,18 +278,40 @@ func (r *Run) Finish() int {
 	}
 	sort.Strings(newSigs)
 	exit := 0
+	// group new signatures by (case without value class, symptom, detail): one VIOLATION line
+	// and one replay file per group; the replay lists every member.
+	groups := map[string][]string{}
+	var gorder []string
 	for _, s := range newSigs {
 		f := r.findings[s]
-		h := sha256.Sum256([]byte(s))
+		g := r.Prop + "|" + group(f.Case) + "|" + f.Symptom
+		if f.Detail != "" {
+			g += "|" + f.Detail
+		}
+		if _, ok := groups[g]; !ok {
+			gorder = append(gorder, g)
+		}
+		groups[g] = append(groups[g], s)
+	}
+	for _, g := range gorder {
+		members := groups[g]
+		first := r.findings[members[0]]
+		var cases []string
+		total := 0
+		for _, s := range members {
+			cases = append(cases, r.findings[s].Case)
+			total += r.findings[s].Count
+		}
+		h := sha256.Sum256([]byte(g))
 		dir := filepath.Join(VerifDir, "replays", r.Prop)
 		_ = os.MkdirAll(dir, 0o755)
 		p := filepath.Join(dir, hex.EncodeToString(h[:6])+".json")
 		body, _ := json.MarshalIndent(map[string]any{
-			"property": r.Prop, "signature": s, "case": f.Case, "symptom": f.Symptom, "detail": f.Detail,
-			"count": f.Count, "seed": r.Seed, "tier": r.Tier, "replay": f.Replay,
+			"property": r.Prop, "signature": g, "case": first.Case, "cases": cases, "symptom": first.Symptom, "detail": first.Detail,
+			"count": total, "seed": r.Seed, "tier": r.Tier, "replay": first.Replay,
 		}, "", " ")
 		_ = os.WriteFile(p, body, 0o644)
-		fmt.Printf("VIOLATION property=%s replay=%s signature=%q\n", r.Prop, p, s)
+		fmt.Printf("VIOLATION property=%s replay=%s signature=%q members=%d\n", r.Prop, p, g, len(members))
 		exit = 1
 	}
 	if len(r.incon) > 0 {
